@@ -73,10 +73,13 @@ impl FunctionDeclaration {
 impl Exec for FunctionDeclaration {
     fn exec(&self, interpreter: &mut Interpreter) -> ExecResult {
         let mut local_variables = LocalVariables::from_params(self.params.clone(), interpreter);
-        local_variables.insert(
-            self.ident.clone(),
-            LocalVariable::Function(self.params.clone(), self.return_type.clone()),
-        );
+        // a parameter of the same name shadows the function's own name, as at creation
+        if local_variables.get(&self.ident).is_none() {
+            local_variables.insert(
+                self.ident.clone(),
+                LocalVariable::Function(self.params.clone(), self.return_type.clone()),
+            );
+        }
         let body = recreate_instructions(&self.body, &mut local_variables)?;
         let function: Arc<Function> = Function {
             ident: Some(self.ident.clone()),
